@@ -28,7 +28,8 @@ CHUNK = 2500
 RULE = ("every call of the TLA+ enumeration: crop (step, start, length, interval ends on half/quarter steps inside the axis, "
         "closedness flags); extend (the same with ends up to 2.5 steps outside, step from attribute / estimated, fill 0 / -7); "
         "width (adjust_dim_width and the two helpers directly, widths 1..2n+3, three positions, step from attribute / estimated); "
-        "non-trivial = the call changes the axis (crop drops, extend adds, width differs from the length)")
+        "histories of two operations on the same data (extend;extend further out, extend;crop, crop;extend, extend;adjust_dim_width) judged "
+        "against the original lattice; non-trivial = the call changes the axis (crop drops, extend adds, width differs from the length)")
 TRUSTED_BASE = ["checks/c17.py + checks/c16.py:bits (builds the axis with numpy, interval ends that are coordinates are taken from the "
                 "array itself, other ends are the nearest double of the rational; encodes coordinates/data; no expected values)"]
 ASSUMPTIONS = ["steps are large against the open-end epsilon 1e-5 (crop/extend use steps >= 0.01 and ends at least a quarter step from "
@@ -78,6 +79,25 @@ def observe(arr, res, raised="", ends=(0.0, 0.0)):
             "data": [_d(x) for x in np.asarray(res.data).ravel()], **eb}
 
 
+def apply_op(arr0, cur, a, fs, op, fill):
+    """One operation of a history on the current array; interval ends refer to the ORIGINAL axis (arr0)."""
+    kw = {}
+    if op["op"] in ("crop", "extend"):
+        if not op["lc"]:
+            kw["left_closed"] = False
+        if op["rc"]:
+            kw["right_closed"] = True
+        start, stop = endpoint(arr0, a, fs, op["ms"]), endpoint(arr0, a, fs, op["me"])
+        if op["op"] == "crop":
+            return ops.crop_dim(cur, "x", start=start, stop=stop, **kw)
+        if fill != 0:
+            kw["fill_value"] = fill
+        return ops.extend_dim(cur, "x", start=start, stop=stop, **kw)
+    if op["op"] == "width":
+        return ops.adjust_dim_width(cur, "x", op["w"], position=op["pos"])
+    raise ValueError(op["op"])
+
+
 def execute(case):
     with warnings.catch_warnings():
         warnings.simplefilter("ignore")
@@ -103,6 +123,10 @@ def execute(case):
                 if case["fill"] != 0:
                     kw["fill_value"] = case["fill"]
                 res = ops.extend_dim(arr, "x", start=ends[0], stop=ends[1], **kw)
+            elif k == "chain":
+                res = arr
+                for op in case["ops"]:
+                    res = apply_op(arr, res, a, fs, op, case["fill"])
             elif k == "width":
                 w, n, pos = case["w"], case["n"], case["pos"]
                 kw = {} if pos == "start" and case["fn"] == "direct" else {"position": pos}
@@ -115,7 +139,7 @@ def execute(case):
             else:
                 raise ValueError(k)
         except (ValueError, KeyError, IndexError, ArithmeticError) as ex:
-            if k not in ("crop", "extend", "width"):
+            if k not in ("crop", "extend", "width", "chain"):
                 raise
             return observe(arr, None, type(ex).__name__, ends)
         return observe(arr, res, ends=ends)
@@ -151,10 +175,40 @@ def random_cases(rng, tier):
         s = rng.choice(WUNITS)
         yield {"kind": "width", "fn": fn, "s": s, "a4": rng.randrange(-4, 5) if s[1] > 1000 else rng.randrange(-40, 41),
                "n": n, "src": src, "w": w, "pos": rng.choice(["start", "center", "end"])}
+    yield from random_chains(rng, 100 * k)
+
+
+def _op(op, ms=0, me=0, lc=True, rc=True, w=0, pos=""):
+    return {"op": op, "ms": ms, "me": me, "lc": lc, "rc": rc, "w": w, "pos": pos}
+
+
+def random_chains(rng, count):
+    """extend;extend further out and crop;extend on longer axes (same restrictions as the enumerated histories)."""
+    for _ in range(count):
+        n = rng.randrange(1, 40)
+        last = 4 * (n - 1)
+        s = rng.choice(UNITS)
+        if rng.random() < 0.6:
+            lc1 = rng.random() < 0.5
+            ms1 = -rng.randrange(0 if lc1 else 1, 30)
+            me1 = last + rng.randrange(0, 30)
+            dl, dr = rng.randrange(0, 30), rng.randrange(0, 30)
+            lc2 = True if dl == 0 else rng.random() < 0.5
+            o = [_op("extend", ms1, me1, lc1, True), _op("extend", ms1 - dl, me1 + dr, lc2, True)]
+        else:
+            ms1 = 2 * rng.randrange(0, last // 2 + 1)
+            me1 = 2 * rng.randrange(ms1 // 2, last // 2 + 1)
+            lc1 = rng.random() < 0.5
+            if not any((4 * i >= ms1 if lc1 else 4 * i > ms1) and (4 * i < me1 if lc1 else 4 * i <= me1) for i in range(n)):
+                continue                                                       # generator restriction: the crop keeps something
+            o = [_op("crop", ms1, me1, lc1, not lc1), _op("extend", ms1 - rng.randrange(1, 30), me1 + rng.randrange(1, 30), True, True)]
+        yield {"kind": "chain", "s": s, "a4": rng.randrange(-40, 41), "n": n, "src": "attr", "fill": rng.choice([0, -7]), "ops": o}
 
 
 def nontrivial(o):
     c = o["in"]
+    if c["kind"] == "chain":
+        return True
     if c["kind"] == "width":
         return c["w"] != c["n"]
     if c["kind"] == "crop":
